@@ -233,19 +233,20 @@ def trunc_path(entry, path, opts):
         bad = [m for m, c in parts if any(nodes[v].op != 'var' for v in m)]
         if bad:
             res['claims'][nm] = 'undecided'; res['notes'].append('%s: non-variable atom outside the angle set' % nm); continue
-        meta[nm] = (len(parts), cls)
         Ds = C.poly_smt(D)
-        for B in boxes:
-            tol = TOL[cls] * max(1, B)
-            share = tol / len(parts)
-            for k, (m, cpoly) in enumerate(parts):
-                fac = []
-                for v, e in m.items():
-                    if v in ctx.small: fac += ['n%d' % ctx.small[v]] * e
-                    else: fac += [str(B)] * e
-                bound = "(* %s)" % ' '.join(['1'] + fac)
-                checks.append(('%s|%d|%d' % (nm, B, k), ["(> (* (absr %s) %s) (* %s (absr %s)))" % (C.poly_smt(cpoly), bound, smt.rat(share), Ds)]))
-    rs = smt.run_checks(pre, checks, per_check_ms=opts.get('trunc_ms', 20000), jobs=opts.get('jobs', 4), tactic='qfnra-nlsat')
+        # one query per monomial: |c_m| * sigma^a <= (tol/#m) * |D|   (the box enters only through B^b afterwards)
+        tol = TOL[cls]; share = tol / len(parts)
+        bmax = 0
+        for k, (m, cpoly) in enumerate(parts):
+            fac = []; b = 0
+            for v, e in m.items():
+                if v in ctx.small: fac += ['n%d' % ctx.small[v]] * e
+                else: b += e
+            bmax = max(bmax, b)
+            bound = "(* %s)" % ' '.join(['1'] + fac)
+            checks.append(('%s|%d' % (nm, k), ["(> (* (absr %s) %s) (* %s (absr %s)))" % (C.poly_smt(cpoly), bound, smt.rat(share), Ds)]))
+        meta[nm] = (len(parts), cls, bmax)
+    rs = smt.run_checks(pre, checks, per_check_ms=opts.get('trunc_ms', 20000), jobs=opts.get('trunc_jobs', 12), tactic='qfnra-nlsat', chunk=12)
     res['queries'] = len(checks); res['queries_ok'] = sum(1 for v in rs.values() if v[0] == 'unsat')
     byclaim = {}
     for lab, _ in checks:
@@ -255,7 +256,7 @@ def trunc_path(entry, path, opts):
         if all(x == 'unsat' for x in lst): res['claims'][nm] = 'proved-bound'
         elif any(x == 'sat' for x in lst): res['claims'][nm] = 'bound-refuted'
         else: res['claims'][nm] = 'undecided'
-    res['monomials'] = {nm: v[0] for nm, v in meta.items()}
+    res['monomials'] = {nm: {'monomials': v[0], 'box_degree': v[2]} for nm, v in meta.items()}
     res['time'] = time.time() - t0
     return res
 
